@@ -13,6 +13,9 @@ using namespace UTAP;
 int32_t utap_verif_scan(const char* str, ParserBuilder* builder, int syntax_kind,
                         void (*sink)(int token, const char* name, const char* text, uint32_t start, uint32_t end, void* ctx), void* ctx);
 
+int32_t utap_verif_token_number();
+double utap_verif_token_floating();
+
 struct ScanBuilder : vh::NullBuilder
 {
     std::vector<std::string> errors, expects;
@@ -24,7 +27,11 @@ struct ScanBuilder : vh::NullBuilder
 
 static void take(int token, const char* name, const char* text, uint32_t a, uint32_t b, void* ctx)
 {
-    static_cast<json*>(ctx)->push_back(json::array({name, std::string(text), a, b}));
+    json tk = json::array({name, std::string(text), a, b});
+    const std::string nm = name;
+    if (nm == "T_NAT") tk.push_back(utap_verif_token_number());             // the value the parser is given
+    if (nm == "T_FLOATING") { double d = utap_verif_token_floating(); uint64_t bits; memcpy(&bits, &d, 8); tk.push_back(std::to_string(bits)); }
+    static_cast<json*>(ctx)->push_back(tk);
 }
 
 static json run_job(const json& job)
